@@ -799,3 +799,39 @@ Qed.
 Lemma inner_item_orig_silent :
   exists bs, bs <> [] /\ inner_item_orig (S (length bs)) bs [] = Ok None /\ inner_item (S (length bs)) bs [] = Err UnexpectedEof.
 Proof. exists [x00; x00; x00]. split; [discriminate|]. vm_compute. split; reflexivity. Qed.
+
+(* a clean end certifies the whole stream: if the solid iterator yields its entries and ends without error, the
+   stream it read is, byte for byte, a sequence of well-formed chunks whose CRCs all matched (ser_chunk recomputes
+   the CRC), grouped into entries closed by FEND.  What a wrong key leaves of a stored CTR stream is read as a clean
+   sequence of entries only if the garbage happens to be such a sequence. *)
+Lemma inner_item_shape : forall fuel bs acc cs r, inner_item fuel bs acc = Ok (Some (cs, r)) ->
+  exists new, cs = acc ++ new /\ bs = ser_chunks new ++ r /\ Forall wf_chunk new /\ new <> [].
+Proof.
+  induction fuel as [|fuel IH]; intros bs acc cs r H; cbn [inner_item] in H; [discriminate|].
+  destruct (read_chunk_stream bs) as [[c r0]|k|] eqn:E; [| |discriminate].
+  - pose proof (read_chunk_ok_inv _ _ _ E) as (Hw & Hb).
+    destruct (ty_is c FEND).
+    + injection H as Hc Hr. subst r0 cs. exists [c]. repeat split; [|constructor; [exact Hw|constructor]|discriminate].
+      rewrite Hb. unfold ser_chunks. cbn [map concat]. rewrite app_nil_r. reflexivity.
+    + apply IH in H. destruct H as (new & Hc & Hu & Hf & _). exists (c :: new). repeat split.
+      * rewrite Hc, <- app_assoc. reflexivity.
+      * rewrite Hb, Hu, ser_chunks_cons, app_assoc. reflexivity.
+      * constructor; assumption.
+      * discriminate.
+  - destruct k; try discriminate. destruct acc; [destruct bs|]; discriminate.
+Qed.
+
+Theorem inner_loop_ok_shape : forall fuel bs es, inner_entries_loop fuel bs = (es, FinOk) ->
+  exists cs, bs = ser_chunks cs /\ Forall wf_chunk cs.
+Proof.
+  induction fuel as [|fuel IH]; intros bs es H; cbn [inner_entries_loop] in H; [discriminate|].
+  destruct (inner_item (S (length bs)) bs []) as [[[cs r]|]|k|] eqn:E.
+  - destruct (parse_normal cs) as [e|k|]; [|discriminate|discriminate].
+    destruct (inner_entries_loop fuel r) as [es' k] eqn:El. injection H as _ Hk. subst k.
+    apply IH in El. destruct El as (cs2 & Hr & Hf2).
+    apply inner_item_shape in E. destruct E as (new & _ & Hb & Hf & _).
+    exists (new ++ cs2). split; [rewrite ser_chunks_app, Hb, Hr; reflexivity|apply Forall_app; split; assumption].
+  - apply inner_item_none in E. destruct E as [Hb _]. subst bs. exists []. split; [reflexivity|constructor].
+  - discriminate.
+  - discriminate.
+Qed.
